@@ -59,7 +59,7 @@ def illegal_variants(name, shapes, args, rng):
 
 def gen_cases(tier, seed):
     rng = gen.rng_for(seed, "c05", tier)
-    budget = {"quick": 300, "thorough": 4000}[tier]
+    budget = {"quick": 300, "thorough": 15000}[tier]
     cases = []
     for name, op in OPS.items():
         g = catalog.grid(name, tier, rng)
@@ -413,7 +413,7 @@ def teardown(ns, mon):
 def finish(agg, tier):
     c = agg["counters"]
     r = []
-    for k in ("verdict:value", "verdict:both-reject", "ctor_checks", "scalar_op_checks", "iteration_checks", "kernel_calls"):
+    for k in ("verdict:value", "verdict:both-reject", "ctor_checks", "scalar_op_checks", "iteration_checks"):
         if not c.get(k):
             r.append(f"zero-events:{k}")
     return r
